@@ -54,7 +54,8 @@ CONSTANTS
     MaxNow,     \* time horizon (Adv is disabled beyond it)
     MaxOps,     \* bound on environment operations (client datagrams, replies, down/up)
     MaxQ,       \* bound on queued client datagrams / replies per socket
-    Hist        \* TRUE: full histories toPeer/toClient/done; FALSE: last element only (model checking)
+    Hist,       \* TRUE: full histories toPeer/toClient/done; FALSE: last element only (model checking)
+    EmptyOn     \* 0 | 1: the environment operations at positions of this parity carry an empty payload (models only)
 
 Addr == {Src[f] : f \in Flows} \cup {Dst[f] : f \in Flows}
 Key(s, d) == [s |-> s, d |-> d]
@@ -474,8 +475,14 @@ Impl  == Begin \/ Left \/ Right \/ Timer \/ Return
 \* the harness injects only between polls (when every chain is idle and the left pipe is not parked)
 EnvQuiet == Quiet /\ began
 \* in the models the payload of a datagram of flow f has f bytes (distinct per flow)
-EnvDgram == EnvQuiet /\ \E f \in Flows : ClientDgram(f, nextId, f)
-EnvReply == EnvQuiet /\ \E f \in Flows : PeerReplies(f, nextId, f)
+\* payload lengths in the models: a datagram of flow f is EMPTY or has f octets (distinct per flow);
+\* which of the two is fixed by the parity of the operation's position in the history (EmptyOn), so
+\* that both lengths occur on every flow and in both directions without multiplying the state space.
+\* An empty datagram delivers 0 bytes but is a delivery like any other: it reaches the other side,
+\* refreshes the flow's activity and counts as a plain-DNS query / answer
+Lens(f) == IF ops % 2 = EmptyOn THEN {0} ELSE {f}
+EnvDgram == EnvQuiet /\ \E f \in Flows : \E n \in Lens(f) : ClientDgram(f, nextId, n)
+EnvReply == EnvQuiet /\ \E f \in Flows : \E n \in Lens(f) : PeerReplies(f, nextId, n)
 EnvStall == EnvQuiet /\ inq = << >> /\ ClientStalls
 EnvResume == EnvQuiet /\ inq = << >> /\ ClientResumes
 EnvDown  == EnvQuiet /\ \E a \in Addr : ServerDown(a)
